@@ -22,20 +22,36 @@ Definition selects (i : kinfo) (a : alias) : Prop := carries i a \/ (id_shape (s
 Definition selects_old (i : kinfo) (a : alias) : Prop := carries i a \/ carries i (strip a).
 
 (* what is loaded after a history: plain set semantics on key objects (a list without repetition, oldest first).
-   Loading a key object that is already there does nothing; otherwise it and those of its subkeys that are not there yet
-   are added.  Unloading a loaded key object removes it and, when it is a primary key, its subkeys. *)
+   Loading a key object adds it and its subkeys, as far as they are not there yet (so loading a key whose subkey was unloaded
+   on its own brings the subkey back: what load() reports is loaded).  Unloading a loaded key object removes it and, when it is
+   a primary key, its subkeys. *)
 Definition is_loaded (k : pkid) (S : list kinfo) : bool := existsb (fun i => kid i =? k) S.
 Definition add_new (S : list kinfo) (i : kinfo) : list kinfo := if is_loaded (kid i) S then S else S ++ [i].
 Definition drop (k : pkid) (S : list kinfo) : list kinfo := filter (fun j => negb (kid j =? k)) S.
 Definition spec_step (S : list kinfo) (o : op) : list kinfo :=
   match o with
-  | Load (i, subs) => if is_loaded (kid i) S then S else fold_left add_new subs (S ++ [i])
+  | Load (i, subs) => fold_left add_new subs (add_new S i)
   | Unload (i, subs) =>
       if is_loaded (kid i) S
       then (if kprimary i then fold_left (fun S j => drop (kid j) S) subs (drop (kid i) S) else drop (kid i) S)
       else S
   end.
 Definition loaded_after (ops : list op) : list kinfo := fold_left spec_step ops [].
+(* the reading implemented before commit 7e98898: loading a key object that is already there did nothing at all *)
+Definition spec_step_old (S : list kinfo) (o : op) : list kinfo :=
+  match o with
+  | Load (i, subs) => if is_loaded (kid i) S then S else fold_left add_new subs (S ++ [i])
+  | Unload _ => spec_step S o
+  end.
+Definition loaded_after_old (ops : list op) : list kinfo := fold_left spec_step_old ops [].
+
+(* id() names one object: the key objects occurring in a history under the same label carry the same data (premise of the
+   theorems that speak about the fingerprints load() returns; the harness never mutates a key after building it) *)
+Definition comps (k : key) : list kinfo := fst k :: snd k.
+Definition key_of (o : op) : key := match o with Load k => k | Unload k => k end.
+Definition objects (ops : list op) : list kinfo := flat_map (fun o => comps (key_of o)) ops.
+Definition objects_consistent (ops : list op) : Prop :=
+  forall x y, In x (objects ops) -> In y (objects ops) -> kid x = kid y -> x = y.
 
 (* the index the keyring should represent: all (identifier, key object) pairs of loaded keys *)
 Definition spec_pairs (loaded : list kinfo) (p : alias * pkid) : Prop :=
@@ -43,8 +59,6 @@ Definition spec_pairs (loaded : list kinfo) (p : alias * pkid) : Prop :=
 
 (* histories that only load / unload whole transferable keys drawn from a universe of distinct key objects:
    then "loaded" is simply the components of the keys that are currently in *)
-Definition comps (k : key) : list kinfo := fst k :: snd k.
-Definition key_of (o : op) : key := match o with Load k => k | Unload k => k end.
 Definition live_step (L : list key) (o : op) : list key :=
   match o with
   | Load k => if existsb (fun k' => kid (fst k') =? kid (fst k)) L then L else L ++ [k]
